@@ -72,5 +72,8 @@ NeverHangs == Meaning(prog).outcome # "hang"
 (* sanity of the meaning itself: a successful program yields a tree closed under parents, links never name directories *)
 TreeClosed == Meaning(prog).outcome = "ok" =>
                 \A n \in Meaning(prog).tree : n.p # <<>> => \E m \in Meaning(prog).tree : m.p = Parent(n.p) /\ m.kind = "dir"
+(* every link directive of a successful program shares the inode of a non-link entry *)
+HardLinksShare == Meaning(prog).outcome = "ok" =>
+                    \A p \in Links(Build(prog, N0).nodes) : \E x \in Meaning(prog).same : x[1] = p
 EmitOK == Emit => PrintT(<<"RESULT", ToJson([prog |-> prog, m |-> Meaning(prog)])>>)
 =============================================================================
